@@ -48,7 +48,7 @@ func runC07(c *mon.Ctx) {
 	w := NewWorld(base)
 	signer := w.IdP[2]
 	plaintexts := []string{"idp-signed", "forged-unsigned", "attacker-signed", "attacker-signed-trusted-keyinfo", "non-assertion", "response", "garbage"}
-	placements := []string{"direct", "direct", "extensions", "advice", "wrapper", "nested-in-assertion"}
+	placements := []string{"direct", "direct", "extensions", "advice", "wrapper", "nested-in-assertion", "inside-another-encrypted-assertion"}
 	bundleCA := sim.MintUsage(sim.K("spsign2"), "verif-issuing-ca", base.AddDate(-15, 0, 0), base.AddDate(15, 0, 0), 90, 3)
 	recips := []string{"none", "sp", "another", "bad-base64", "another-cert-same-key", "another-ec", "bundle-ca"}
 	keyAlgs := []string{sim.RSAOAEP, sim.RSAOAEP11, sim.RSA15}
@@ -169,6 +169,32 @@ func runC07(c *mon.Ctx) {
 			d.Root().AddChild(sim.Wrapper("saml", sim.NSA, "Advice", eel))
 		case "wrapper":
 			d.Root().AddChild(sim.Wrapper("x", "urn:x", "W", eel))
+		case "inside-another-encrypted-assertion":
+			// a direct-child EncryptedAssertion that is fine in itself (a genuine signed assertion encrypted to the SP),
+			// with the element under test tucked inside it: below the outer element, its EncryptedData or its KeyInfo
+			host := sim.GenuineAssertion(w.Env, fmt.Sprintf("_h%08x", r.Uint32()))
+			host.Sig = sim.DefaultSig(signer.Key, signer)
+			hostPlain, herr := sim.BuildAssertionStandalone(host, sim.PlainStyle())
+			hostXML, herr2 := sim.EncryptedAssertionXML(&sim.EncSpec{DataAlg: sim.AES128GCM, KeyAlg: sim.RSAOAEP, To: w.SPEnc}, []byte(hostPlain), nil, nil)
+			hd, herr3 := sim.ParseDoc(hostXML)
+			if herr != nil || herr2 != nil || herr3 != nil {
+				d.Root().AddChild(sim.Wrapper("x", "urn:x", "W", eel))
+				break
+			}
+			hostEl := hd.Root().Copy()
+			target := hostEl
+			if kids := hostEl.ChildElements(); len(kids) > 0 {
+				switch r.IntN(3) {
+				case 1:
+					target = kids[0] // EncryptedData
+				case 2:
+					if kk := kids[0].ChildElements(); len(kk) > 1 {
+						target = kk[1] // its KeyInfo
+					}
+				}
+			}
+			target.AddChild(eel)
+			d.Root().AddChild(hostEl)
 		case "nested-in-assertion":
 			// a genuine signed assertion as direct child, the encrypted element smuggled in an unsigned sibling assertion shell
 			shell := sim.Wrapper("saml", sim.NSA, "Assertion", eel)
@@ -208,6 +234,18 @@ func runC07(c *mon.Ctx) {
 				opaque = false
 			}
 		}
+		if !opaque && r.IntN(8) == 0 {
+			// the SP holds its key without any certificate (setter with a signer only, or a store handing out empty
+			// bytes): there is nothing a named recipient certificate could be equal to, so naming one is naming another
+			sp.SPKeyStore = nil
+			if r.IntN(2) == 0 {
+				_ = sp.SetSPKeyStore(&saml2.KeyStore{Signer: w.SPEnc.Key.Signer})
+			} else {
+				sp.SPKeyStore = rawKeyStore{w.SPEnc.Key.RSA(), []byte{}}
+			}
+			opaque = true // (a genuine message may then be refused; a wrong recipient is never accepted)
+			rc += "+sp-holds-no-certificate"
+		}
 		sp.AllowMissingAttributes = true
 		var res *types.Response
 		var verr error
@@ -217,7 +255,7 @@ func runC07(c *mon.Ctx) {
 			continue
 		}
 		cs.Nontrivial(cs.Description())
-		rc0, _, _ := strings.Cut(rc, "+sp-named")
+		rc0, _, _ := strings.Cut(rc, "+sp-")
 		shouldAccept := pk == "idp-signed" && place == "direct" && (rc0 == "none" || rc0 == "sp") && !attackerSignsResponse
 		switch {
 		case verr == nil && !shouldAccept:
